@@ -97,6 +97,12 @@ def call_stmt(ex, e, st):
         return cut(ex, e, st)
     if isinstance(f, ast.Name) and f.id in ("stash", "unstash"):
         return stash(ex, e, st, f.id)
+    if isinstance(f, ast.Name) and f.id == "forget_eq":
+        # ghost: take an unstashed fact out of the queries again (it stays in the stash); weakening only
+        g = st.stash.get(e.args[0].value)
+        if g is not None:
+            st.pc = [p_ for p_ in st.pc if not p_.eq(g)]
+        return
     if isinstance(f, ast.Name) and f.id == "forget":
         # ghost: forget("name", ..) drops the hypotheses that mention one of these spec functions (weakening the path condition is sound)
         names = [a.value for a in e.args]
